@@ -103,6 +103,15 @@ theorem CpOK.mono {s s' : State} {cp : Checkpoint} {m : Nat} (h : CpOK cfg s cp 
   · exact placedAt_mono hc (h.older b hb' hid hs)
   · have := h.mark; have := hb'.1; omega
 
+theorem StartOK.mono {s s' : State} {st : Cur} (h : StartOK s st) (hc : ChunksCov s s') : StartOK s' st := by
+  cases st with
+  | chunk j =>
+    obtain ⟨c, hj⟩ := h
+    obtain ⟨c', hc', _⟩ := hc j c hj
+    exact ⟨c', hc'⟩
+  | unallocated => trivial
+  | claimed => trivial
+
 theorem FramesOK.mono {s s' : State} (hc : ChunksCov s s') (hl : LiveSub s s') (hn : s.nextId ≤ s'.nextId) :
     ∀ (fs : List Frame) (ma : Nat) (ms : List Nat), FramesOK cfg s ma fs ms → FramesOK cfg s' ma fs ms := by
   intro fs
@@ -127,9 +136,9 @@ theorem FramesOK.mono {s s' : State} (hc : ChunksCov s s') (hl : LiveSub s s') (
       | cons m ms =>
         simp only [FramesOK] at h ⊢
         exact ⟨h.1, h.2.1.mono hc hl hn, ih _ _ h.2.2⟩
-    | alignedLower outer =>
+    | alignedLower outer start =>
       simp only [FramesOK] at h ⊢
-      exact ⟨h.1, ih _ _ h.2⟩
+      exact ⟨h.1, h.2.1.mono hc, ih _ _ h.2.2⟩
     | alignedRaise outer =>
       simp only [FramesOK] at h ⊢
       exact ⟨h.1, h.2.1, ih _ _ h.2.2⟩
